@@ -1201,6 +1201,13 @@ func checkLogSubjects(c *Check, p *Program, rule string) {
 			}
 			n++
 			arg := in.(ssa.CallInstruction).Common().Args[0]
+			for {
+				ci, isCI := arg.(*ssa.ChangeInterface)
+				if !isCI {
+					break
+				}
+				arg = ci.X // a boxed value handed on as a wider or narrower interface is still boxed
+			}
 			okS := false
 			why := "the subject is " + describe(arg)
 			if mi, isMI := arg.(*ssa.MakeInterface); isMI {
